@@ -88,12 +88,13 @@ func ruleC01FilterLoop(c *Ctx) {
 		return
 	}
 	c.Fn("(*Query).exec")
-	lp := findRangeLoopOverField(exec, "from")
-	if lp == nil {
+	scan := c.findExecScan(exec)
+	if scan == nil {
 		c.Unknown("c01.filter-loop", key, c.P.Pos(exec.Pos()), "anchor lost: no loop over query.from in exec")
 		return
 	}
-	c.Anchor("row filter loop", "(*Query).exec "+c.P.Pos(lp.header.Instrs[0].Pos()))
+	lp, loopFn := scan.lp, scan.fn
+	c.Anchor("row filter loop", funcName(loopFn)+" "+c.P.Pos(lp.header.Instrs[0].Pos()))
 	// the predicate function: reads Query.whereDefinition
 	where := c.whereFunc()
 	if where == nil {
@@ -108,7 +109,7 @@ func ruleC01FilterLoop(c *Ctx) {
 		_, ok := callArgs(t.Args[0], wname)
 		return ok
 	}}}
-	tb := &Table{Fn: exec, Atoms: atoms, Seen: map[string]string{}}
+	tb := &Table{Fn: loopFn, Atoms: atoms, Seen: map[string]string{}}
 	cfg := WalkCfg{StopAt: func(b *ssa.BasicBlock) bool { return b == lp.header }, MaxVisits: 1,
 		Domain: func(t *Term) []constant.Value {
 			if atoms[0].Match(t) {
@@ -117,7 +118,7 @@ func ruleC01FilterLoop(c *Ctx) {
 			}
 			return nil
 		}}
-	paths, err := WalkFrom(exec, lp.body, lp.header, cfg)
+	paths, err := WalkFrom(loopFn, lp.body, lp.header, cfg)
 	if err != nil {
 		c.Unknown("c01.filter-loop", key, c.P.Pos(exec.Pos()), err.Error())
 		return
@@ -218,12 +219,13 @@ func ruleC01FilterLoop(c *Ctx) {
 	// the accumulator, not query.from, is what flows to grouping / projection
 	okFlow, flowWhy := false, "no call after the loop receives the filter accumulator"
 	tbld := NewTB()
+	after := scan.afterBlock()
 	allInstrs(exec, func(b *ssa.BasicBlock, in ssa.Instruction) {
 		call, ok := in.(*ssa.Call)
-		if !ok || call.Common().StaticCallee() == nil || !c.P.InModule(call.Common().StaticCallee()) {
+		if !ok || call.Common().StaticCallee() == nil || !c.P.InModule(call.Common().StaticCallee()) || call == scan.call {
 			return
 		}
-		if !lp.exit.Dominates(b) {
+		if !after.Dominates(b) {
 			return
 		}
 		for _, a := range call.Common().Args {
@@ -235,15 +237,72 @@ func ruleC01FilterLoop(c *Ctx) {
 		}
 	})
 	// first module call after the loop must take the accumulator cell
-	first := firstModuleCallAfter(c.P, exec, lp.exit)
-	if first != nil && accTerm != "" {
-		for _, a := range first.Common().Args {
-			if tbld.Of(a).Op == "phi" || strings.Contains(tbld.Of(a).String(), "append") || strings.Contains(tbld.Of(a).String(), "make:slice") {
-				okFlow, flowWhy = true, ""
+	if scan.call == nil {
+		first := firstModuleCallAfter(c.P, exec, lp.exit)
+		if first != nil && accTerm != "" {
+			for _, a := range first.Common().Args {
+				if tbld.Of(a).Op == "phi" || strings.Contains(tbld.Of(a).String(), "append") || strings.Contains(tbld.Of(a).String(), "make:slice") {
+					okFlow, flowWhy = true, ""
+				}
+			}
+		}
+	} else if okAcc, whyAcc := scan.helperReturnsAcc(); !okAcc {
+		okFlow, flowWhy = false, whyAcc
+	} else {
+		// helper form: the first stage after the scan helper receives the helper's rows
+		var first *ssa.Call
+		past := false
+		for _, in := range scan.call.Block().Instrs {
+			if in == ssa.Instruction(scan.call) {
+				past = true
+				continue
+			}
+			if call, ok := in.(*ssa.Call); ok && past && first == nil {
+				if cal := call.Common().StaticCallee(); cal != nil && c.P.InModule(cal) {
+					first = call
+				}
+			}
+		}
+		if first == nil {
+			for _, s := range scan.call.Block().Succs {
+				if f := firstModuleCallAfter(c.P, exec, s); f != nil && first == nil && isKnownStage(f) {
+					first = f
+				}
+			}
+			if first == nil {
+				// the stage follows the error test of the helper: take the first stage call dominated by the helper call
+				allInstrs(exec, func(b *ssa.BasicBlock, in ssa.Instruction) {
+					if call, ok := in.(*ssa.Call); ok && first == nil && b != scan.call.Block() && scan.call.Block().Dominates(b) && isKnownStage(call) {
+						first = call
+					}
+				})
+			}
+		}
+		if first != nil {
+			for _, a := range first.Common().Args {
+				if x, isX := a.(*ssa.Extract); isX && x.Tuple == ssa.Value(scan.call) && x.Index == 0 {
+					okFlow, flowWhy = true, ""
+				}
+			}
+			if !okFlow {
+				flowWhy = "the first stage after the scan (" + funcName(first.Common().StaticCallee()) + ") does not receive the rows the scan helper returned"
 			}
 		}
 	}
 	c.Check(okFlow, "c01.filter-loop", "(*Query).exec/accumulator-flows-on", c.P.Pos(exec.Pos()), "the first stage after the loop receives the accumulator built by the loop", flowWhy)
+}
+
+// isKnownStage: a call of one of the pipeline stages of exec.
+func isKnownStage(call *ssa.Call) bool {
+	cal := call.Common().StaticCallee()
+	if cal == nil {
+		return false
+	}
+	switch cal.Name() {
+	case "ExecGroupBy", "ExecSelect", "ExecDistinct", "ExecOrderBy":
+		return true
+	}
+	return false
 }
 
 // isMapAssert: a comma-ok assertion to map[string]any (the Map alias is transparent).
